@@ -210,6 +210,8 @@ def prop(case):
                 init, times, ovl = case['owave'][(row + 3 * lane) % len(case['owave'])]
                 ent = ([W.TMIN] if init else []) + [np.float32(t / W.GRID) for t in times]
                 ent = ent[:cap - 1] + [W.TMAX_OVL if ovl else W.TMAX]
+                if loc < 0 or loc + cap > sim3.c.shape[0]:
+                    raise Violation(f'the region [{loc}, {loc + cap}) that c_locs / c_caps report for a captured line lies outside the signal memory ({sim3.c.shape[0]} rows)')
                 sim3.c[loc:loc + len(ent), lane] = ent
                 ts = [float(x) for x in ent[(1 if init else 0):-1]]
                 if any(ts[i] >= ts[i + 1] for i in range(len(ts) - 1)): injected_nonmono = True
